@@ -469,8 +469,39 @@ def param_names(text):
     return names
 
 
-def translate(src, name, known):
+# `validate_trait_complex` keeps `trait->py_validate` alive around the walk (baa32de): the text of the walk is
+# the function `validate_trait_complex_body`, and `validate_trait_complex` itself is, once the reference-count
+# statements are dropped, a call-through.  Exactly this shape is accepted (anything else raises): the term
+# emitted under the name `validate_trait_complex` is then the translation of the body function.
+WRAPPERS = {"validate_trait_complex": "validate_trait_complex_body"}
+WRAPPER_SHAPE = re.compile(
+    r"^\(\.seq \(\.expr \(\.assign (?P<pv>\d+) \(\.field \(\.var 0\) \.py_validate\)\)\) "
+    r"\(\.seq \(\.expr \(\.call \.Py_INCREF \[\(\.var (?P=pv)\)\]\)\) "
+    r"\(\.seq \(\.expr \(\.assign (?P<res>\d+) \(\.call \(\.helper \"(?P<callee>\w+)\"\) "
+    r"\[\(\.var 0\), \(\.var 1\), \(\.var 2\), \(\.var 3\)\]\)\)\) "
+    r"\(\.seq \(\.expr \(\.call \.Py_DECREF \[\(\.var (?P=pv)\)\]\)\) \(\.ret \(\.var (?P=res)\)\)\)\)\)\)$")
+
+
+def check_wrapper(src, name, callee, known):
+    """raise unless `name` is `pv = trait->py_validate; INCREF(pv); r = callee(trait, obj, name, value);
+    DECREF(pv); return r;` with the parameters of `callee` in the same order"""
     ptext, body = function_text(src, name)
+    params = param_names(ptext)
+    if len(params) != 4 or param_names(function_text(src, callee)[0]) != params:
+        raise Unknown("%s: parameters differ from those of %s" % (name, callee))
+    p = Parser(name, params, tokenize(body), known | {callee})
+    stmt, tails = p.function()
+    m = WRAPPER_SHAPE.match(stmt)
+    if m is None or tails != ".nil" or m.group("callee") != callee or m.group("pv") == m.group("res"):
+        raise Unknown("%s is not a keep-alive call-through to %s" % (name, callee))
+
+
+def translate(src, name, known):
+    text_of = name
+    if re.search(r"^%s\s*\(" % re.escape(WRAPPERS.get(name, "\0")), src, flags=re.M):
+        check_wrapper(src, name, WRAPPERS[name], known)
+        text_of = WRAPPERS[name]
+    ptext, body = function_text(src, text_of)
     params = param_names(ptext)
     p = Parser(name, params, tokenize(body), known)
     stmt, tails = p.function()
@@ -482,7 +513,7 @@ def emit(traits_dir):
     src = strip_comments(open(os.path.join(traits_dir, "ctraits.c")).read())
     known = set(HELPERS) | set(VALIDATORS)
     defined = sorted(set(re.findall(r"^(validate_trait_\w+)\s*\(", src, flags=re.M)))
-    missing = [f for f in defined if f not in known]
+    missing = [f for f in defined if f not in known and f not in WRAPPERS.values()]
     if missing:
         raise Unknown("validate_trait_* functions the translator does not know: %s" % missing)
     lines = ["/- GENERATED by harness/translate/cvalidators.py from the working tree - do not edit. -/",
